@@ -16,7 +16,8 @@ data and evaluated at xi and at a second point xi0:
                                    ==  c * J^T Fisher(theta) J (+ 1 for the standard Hamiltonian)
              where Fisher = sum_d p(d) score score^T over the enumerated outcomes (== closed form)
   trafo      J_T = Jacobian of get_transformation():  J_T^T J_T == metric  exactly, or
-             sum_d p(d) J_T(d)^T J_T(d) == Fisher where the docstring calls it a local approximation.
+             sum_d p(d) J_T(d)^T J_T(d) == Fisher where the docstring calls it a local approximation;
+             dense get_metric_at(xi) == J_T^T J_T.
 """
 import itertools
 import os
@@ -738,7 +739,7 @@ def check_point(sp, xi, xi0):
     EJtJ = np.zeros((sp.D, sp.D))
     EM = np.zeros((sp.D, sp.D))
     wsum = 0.
-    worst = dict(value=0., gradient=0., metric=0., trafo=0., leak=0.)
+    worst = dict(value=0., gradient=0., metric=0., trafo=0., get_metric_at=0., leak=0.)
     cls_ok = True
     first = {}
     for idx in joint:
@@ -797,6 +798,13 @@ def check_point(sp, xi, xi0):
                 break
             G = lay.gram(tr[1](ift.Linearization.make_var(f_xi)).jac)
             EJtJ += w * G
+            Gat = lay.dense(lh.get_metric_at(f_xi))
+            e = rel(F.proj(Gat, T), F.proj(G, T))
+            if e > worst["get_metric_at"]:
+                worst["get_metric_at"] = e
+                if e > TOL:
+                    first.setdefault("get_metric_at", ("get_metric_at(xi)\n%s\n!= J_T^T J_T\n%s" % (Gat, G),
+                                                       where(sp, Gat, G) if T is None else "tangent"))
             if sp.trafo == "exact" or sp.metric_data_dependent:
                 # exact pull-back (also: the documented 'same approximation' metric of use_full_fisher=False)
                 e = rel(F.proj(G, T), F.proj(M, T))
@@ -805,7 +813,7 @@ def check_point(sp, xi, xi0):
                     if e > TOL:
                         first.setdefault("trafo", ("J_T^T J_T\n%s\n!= metric\n%s" % (G, M),
                                                    where(sp, G, M) if T is None else "tangent"))
-    for clause in ("value", "gradient", "metric", "trafo"):
+    for clause in ("value", "gradient", "metric", "trafo", "get_metric_at"):
         if clause in first:
             fails.append((clause, first[clause][1], first[clause][0]))
     if abs(wsum - 1.) > 1e-12:
